@@ -29,8 +29,11 @@ fn with_prop(id: &str, f: &mut dyn FnMut(&dyn Runner)) -> bool {
         "C11" => f(&props::c11::C11),
         "C12" => f(&props::c12::C12),
         "C13" => f(&props::c13::C13),
+        "C14" => f(&props::c14::C14),
+        "C15" => f(&props::c15::C15),
         "C16" => f(&props::c16::C16),
         "C17" => f(&props::c17::C17),
+        "C18" => f(&props::c18::C18),
         _ => return false,
     }
     true
